@@ -721,6 +721,12 @@ func (g *Gen) f64bits() uint64 {
 	case 3: // powers of ten and neighbours
 		f := math.Pow(10, float64(g.intn(617)-308))
 		return math.Float64bits(f) + uint64(g.intn(3)) - 1
+	case 4: // 53-bit integers and their neighbours: the binades where the mantissa needs no (or almost no) scaling
+		e := uint64(0x433 + g.intn(5) - 2)
+		if g.chance(0.5) {
+			e = 0x433
+		}
+		return uint64(g.intn(2))<<63 | e<<52 | g.r.Uint64()&(1<<52-1)
 	default:
 		b := g.r.Uint64()
 		if (b>>52)&0x7ff == 0x7ff {
@@ -732,7 +738,11 @@ func (g *Gen) f64bits() uint64 {
 
 // genFloat: binary floating-point conversions (C15).
 func (g *Gen) genFloat(p *Prog) {
-	switch g.intn(6) {
+	k := g.intn(6)
+	if g.minExpFloat {
+		k = 4
+	}
+	switch k {
 	case 0, 1: // SetFloat64
 		z := p.Load(g.receiver(g.prec(true), g.mode()))
 		if g.chance(0.2) { // enough precision for the full expansion
@@ -821,6 +831,14 @@ func (g *Gen) genFloat(p *Prog) {
 		e2 := g.intn(601) - 300
 		if g.chance(0.3) {
 			e2 = g.intn(41) - 20 - fprec
+		}
+		if g.minExpFloat {
+			// the smallest big.Float exponents: SetFloat must scale in two steps (2^-fprec, then the rest)
+			mant.SetBit(mant, 0, 1)
+			e2 = math.MinInt32 - mant.BitLen() + g.intn(mant.BitLen()+3)
+			if g.chance(0.2) {
+				e2 = math.MinInt32 + g.intn(3)*1000
+			}
 		}
 		p.Exec(fmt.Sprintf("setfloat %d %d %d %s %d", z, fprec, g.intn(2), bigToWords(mant), e2))
 	default: // Float(big.Float)
